@@ -484,7 +484,8 @@ def glue_source(d, has_builder):
 
 def macro_wrapped(d, lines):
     """the same declaration produced by a macro_rules! expansion: the struct's visibility (`vis`), its name and its fields' names
-    (`ident`), a literal default and the array lengths (`literal`), a named default (`ident`) all arrive as fragments
+    (`ident`), a literal default and the array lengths (`literal`), a named default (`ident`), the enum inside Option<..> (`ty`)
+    all arrive as fragments
     (register-definition macros of HAL crates look like this)"""
     vis = d.get("vis", "pub ")
     head = "%sstruct %s {" % (vis, d["name"])
@@ -512,6 +513,11 @@ def macro_wrapped(d, lines):
                     rest = "[%s; $n%d]," % (am.group(1), n)
                     params.append("$n%d:literal" % n)
                     args.append(am.group(2))
+                om = re.search(r"Option<([A-Za-z0-9_:]+)>", rest)
+                if om and n % 2 == 0:                         # the type inside Option<..> as a `ty` fragment (a None-delimited group)
+                    rest = rest[:om.start(1)] + "$t%d" % n + rest[om.end(1):]
+                    params.append("$t%d:ty" % n)
+                    args.append(om.group(1))
                 body[j] = "    $f%d: " % n + rest
                 break
     return (["macro_rules! mk_decl {", "    (%s) => {" % ", ".join(params)] + ["        " + l for l in body]
